@@ -215,13 +215,15 @@ def parse_driver(tracefile, out, res):
 
 def extract_history(tracefile, idx):
     """the HIST header and E lines of history number idx"""
-    lines = []; on = False
+    lines = []; on = False; q = None
     for line in open(tracefile):
         if line.startswith('HIST '):
             on = line.split()[1] == str(idx)
             if on: lines.append(line.rstrip('\n'))
+        elif on and line.startswith('Q '):
+            q = 'E ' + line[2:].rstrip('\n')      # replayable form of the next event
         elif on and line.startswith('E '):
-            lines.append(line.rstrip('\n'))
+            lines.append(q if q else line.rstrip('\n')); q = None
         elif on and line.startswith('END'):
             break
     return lines
